@@ -20,7 +20,7 @@ from . import common as C
 IMPORTS = "From LQ Require Kernels.Trim.\nFrom LQ Require Import Core.Value Core.Syntax Core.Render."
 NEEDED = ["theories/Kernels/Trim.v", "theories/Core/Value.v", "theories/Core/Syntax.v", "theories/Core/Render.v",
           "theories/Proofs/Value_proofs.v", "theories/Proofs/Render_proofs.v", "theories/Proofs/Render_buffer.v", "theories/Proofs/Render_fuel.v",
-          "theories/Proofs/Render_control.v", "theories/Proofs/Render_lambda.v", "theories/Proofs/Value_decimal.v"]
+          "theories/Proofs/Render_control.v", "theories/Proofs/Render_counters.v", "theories/Proofs/Render_lambda.v", "theories/Proofs/Value_decimal.v"]
 
 LCLASSES = {
     "LiquidSyntaxError", "LiquidTypeError", "LiquidNameError", "LiquidValueError", "UndefinedError",
